@@ -67,7 +67,7 @@ def run(prog, rep):
         fn = u.fn(fname)
         pn, ln_ = fn.param_names()[ptrp], fn.param_names()[lenp]
         # locals that alias the pointer parameter (sin = (struct sockaddr_in *) dest)
-        alias = {pn}
+        alias = set(fn.value_aliases(pn))
         for b, i, n in fn.nodes():
             if n["k"] == "asg" and strip_casts(n["l"])["k"] == "ref" and root_var(n["r"]) in alias and strip_casts(n["r"])["k"] == "ref":
                 alias.add(strip_casts(n["l"])["name"])
@@ -164,8 +164,9 @@ def run(prog, rep):
 
     fin = u.fn("p_socket_address_new_from_native")
     fout = u.fn("p_socket_address_to_native")
-    in_pairs = pairs_from(fin, lambda v: v not in (fin.param_names()[0],), {fin.param_names()[0]}, "in")
-    alias_out = {fout.param_names()[1]}
+    alias_in = set(fin.value_aliases(fin.param_names()[0]))
+    in_pairs = pairs_from(fin, lambda v: v not in alias_in, alias_in, "in")
+    alias_out = set(fout.value_aliases(fout.param_names()[1]))
     for b, i, n in fout.nodes():
         if n["k"] == "asg" and strip_casts(n["l"])["k"] == "ref" and root_var(n["r"]) in alias_out:
             alias_out.add(strip_casts(n["l"])["name"])
